@@ -109,6 +109,11 @@ func goMapDefineOwnProperty(obj *object, name string, descriptor property, throw
 	if !descriptor.isDataDescriptor() {
 		return obj.runtime.typeErrorResult(throw)
 	}
+	if _, hasValue := descriptor.value.(Value); !hasValue {
+		// {writable: true, enumerable: true, configurable: true} without a
+		// value is a data descriptor, but there is nothing to store.
+		return obj.runtime.typeErrorResult(throw)
+	}
 	if goObj.value.IsNil() {
 		// A nil Go map cannot take entries (SetMapIndex panics).
 		panic(obj.runtime.panicTypeError("assignment to entry in nil map"))
